@@ -162,3 +162,55 @@ def run(chk, S: Session):
         ok = len(got) == 1 and got[0][1] is key and st is T.mk("mcall", (tf, "unflatten_array", A("flat_sample")))
         r2.require(ok, f"{qual.rsplit('.', 1)[1]}.sample_tree", "tree_flatten.unflatten_array(self.sample_flat(key))", f"{T.show(st, 3)}", qual)
         chk.sample({"rule": "R-C13-2", "factorisation": fam, "sample_flat": T.show(out, 5)})
+    prior_grid_rules(chk, S)
+
+
+def prior_grid_rules(chk, S):
+    """Prior samples on a grid follow the prior's joint law: from_grid must discretise with a unit calibrated scale *by value*."""
+    from ..harness import BLOCK, DENSE, ISO
+
+    r3 = chk.rule("R-C13-3", "MarkovSequence.from_grid: every transition of the prior sequence uses an all-ones calibrated output scale (the prior's own base scale only)", floor=3)
+    for fam, mod, ncls, rank in (("dense", DENSE, "DenseNormal", 1), ("isotropic", ISO, "IsotropicNormal", 2), ("blockdiag", BLOCK, "BlockDiagNormal", 2)):
+        it = S.interp()
+        mf = T.atom(f"pg_mean_{fam}", ndims={"": rank})
+        mf.meta["ndim"] = rank
+        cf = T.atom(f"pg_chol_{fam}", ndims={"": rank + 1})
+        cf.meta["ndim"] = rank + 1
+        init = it.instantiate(it.class_value(f"{mod}.{ncls}"), [mf, cf, A("tf")], {}, "<harness>")
+        if fam == "blockdiag":
+            it.method_hooks[f"{mod}.{ncls}._mean_batched"] = lambda itp, fn, a, kw, site: [T.atom("pg_coef0", array=True), T.atom("pg_coef1", array=True)]
+
+        def attr_hook(name, _init=init):
+            return _init if name == "init" else None
+
+        pcv = it.class_value(f"{mod}." + {"dense": "DenseWienerIntegrated", "isotropic": "IsotropicWienerIntegrated", "blockdiag": "BlockDiagWienerIntegrated"}[fam])
+        _own, pinit = it.find_method_node(pcv, "__init__")
+        pa = pinit.args
+        pos = [init if a_.arg == "init" else A(f"prior.{a_.arg}") for a_ in (pa.posonlyargs + pa.args)[1:]]
+        kws = {a_.arg: (init if a_.arg == "init" else A(f"prior.{a_.arg}")) for a_ in pa.kwonlyargs}
+        prior = it.instantiate(pcv, pos, kws, "<harness>")
+        calls = []
+
+        def tr_hook(itp, fn, a, kw, site, _c=calls):
+            _c.append(kw)
+            return T.atom("transition_k")
+
+        it.method_hooks[f"{mod}.{prior.cls.info.name}.transition"] = tr_hook
+        cv = it.class_value(MS)
+        try:
+            res = it.call(it.getattr(cv, "from_grid", None), [prior], {"grid": A("grid"), "reverse": False}, "<harness>")
+            vm = [e for e in it.events if e["kind"] == "vmap"]
+            if len(vm) != 1:
+                r3.unknown(f"from_grid [{fam}]", f"{len(vm)} vmapped transitions", EST_)
+                continue
+            scale_arg = vm[0]["args"][1] if len(vm[0]["args"]) > 1 else None
+        except AnalysisError as e:
+            r3.unknown(f"from_grid [{fam}]", str(e), EST_)
+            continue
+        S.absorb(it)
+        ok = isinstance(scale_arg, T.Term) and scale_arg.op in ("np.ones", "np.ones_like") and not T.value_atoms(scale_arg)
+        r3.require(ok, f"from_grid [{fam}] unit calibrated scale", f"output_scale = {T.show(scale_arg, 3)}", f"the transitions are discretised with output_scale = {T.show(scale_arg, 3)}, which is not an all-ones array by value: "
+                   "the sampled prior's process noise is scaled by it", EST_, {"factorisation": fam})
+
+
+EST_ = "probdiffeq/_probdiffeq/estimators_and_losses.py"
